@@ -139,7 +139,13 @@ class Incremental:
             if "array" in ij:
                 obj = h.InstanceArray(target, ij["array"])
             elif "pair" in ij:
-                obj = h.Pair(target)
+                if ij.get("pair_of", "Diff") == "Diff":
+                    obj = h.Pair(target)
+                else:
+                    key = "ibtype:" + ij["pair_of"]
+                    if key not in ext_cache:
+                        ext_cache[key] = h.InstanceBundleType(name="Ib_" + ij["pair_of"], bundle=defs[ij["pair_of"]])
+                    obj = ext_cache[key](target)
             else:
                 obj = h.Instance(of=target)
             if placeholder:
